@@ -67,7 +67,12 @@ class InProcTransport(BaseTransport, scheme="c12inproc"):
         self.wire.append((data.hex(), None if self.pending is None else self.pending.hex()))
         return len(data)
 
+    yielding = False  # a reply takes a moment: other tasks of the client run while a request is in flight
+
     async def read(self, timeout: float | None = None, tags: list[str] | None = None) -> bytes:
+        if self.yielding:
+            await asyncio.sleep(0)
+            await asyncio.sleep(0)
         p, self.pending = self.pending, None
         if p is None:
             raise TimeoutError("in-process peer stays silent")
@@ -197,6 +202,21 @@ async def record_run(db: Path, run: dict[str, Any]) -> dict[str, Any]:
         if run.get("props") is not None:
             await h.insert_scan_run_properties_pre(Props(**run["props"]))
         ecu.db_handler = h
+        pinger: asyncio.Task[None] | None = None
+        if run.get("tp"):
+            # a second task of the same client (like the cyclic tester-present worker) keeps asking while the
+            # history runs: its requests queue on the client mutex during the history's in-flight requests
+            tr.yielding = True
+
+            async def ping() -> None:
+                for _ in range(3 * len(run["steps"]) + 3):
+                    try:
+                        await ecu.request(service.TesterPresentRequest(False))
+                    except Exception:  # noqa: BLE001
+                        pass
+                    await asyncio.sleep(0)
+
+            pinger = asyncio.create_task(ping())
         last_seed: bytes | None = None
         oob = set(run.get("oob", []))
         outcomes = []
@@ -211,6 +231,12 @@ async def record_run(db: Path, run: dict[str, Any]) -> dict[str, Any]:
             except Exception as e:  # noqa: BLE001  (MissingResponse, IllegalResponse, ...)
                 outcomes.append(type(e).__name__)
         scan_run = h.scan_run
+        if pinger is not None:
+            pinger.cancel()
+            try:
+                await pinger
+            except BaseException:  # noqa: BLE001
+                pass
     finally:
         await h.disconnect()
     return {"scan_run": scan_run, "wire": tr.wire, "outcomes": outcomes}
@@ -303,7 +329,7 @@ async def _run_case(case: dict[str, Any], tmp: Path) -> list[dict[str, Any]]:
             "wire_mismatch": [i for i, (w, r) in enumerate(zip(rec["wire"], rows))
                               if list(bytes.fromhex(w[0])) != r["req"]
                               or ([] if w[1] is None else list(bytes.fromhex(w[1]))) != r["rsp"]]}
-    if len(rows) != len(target["steps"]) or not rows:
+    if (len(rows) != len(target["steps"]) and not target.get("tp")) or not rows:
         return [{"id": case["id"], "skip": "rows-lost-or-empty", "info": info}]
     reqs = [bytes(r["req"]) for r in rows]
     obs = await replay_run(iso_db, reqs, None, None, passes=2 if case.get("second_pass") else 1,
